@@ -212,6 +212,6 @@ def jobs(tier):
     for cfg in (QUICK_CFG if q else list(CFG)):
         for gi, g in enumerate(fn_groups(2 if q else 3)): J.append(('%s.%d' % (cfg, gi), job_cfg(cfg, g)))
     for o in (OPTS_Q if q else OPTS_T):
-        for gi, g in enumerate(fn_groups(3)): J.append(('%s.%d' % (o[1:], gi), job_opt(o, g)))
+        for gi, g in enumerate(fn_groups(14 if o == '-O0' else 3)): J.append(('%s.%d' % (o[1:], gi), job_opt(o, g)))       # unoptimised IR: deep call trees, slow to execute
     return J
 def PROGRAMS(recs): return len({tuple(x['name'].split('.')[1:3]) for x in recs if x.get('kind') == 'diff'})
